@@ -4,6 +4,7 @@ import importlib
 
 from sa import model
 from sa import norm
+from sa import universe as unimod
 from sa.model import AnalysisError
 
 TITLE = 'stdlib names resolve; re.Match API kinds; sibling symmetry'
@@ -466,7 +467,115 @@ def check_siblings(repo, rep):
     rep.floor('sibling pairs', n, 15)
 
 
+REGEX = 'yaql.standard_library.regex'
+
+
+def check_callbacks_call_the_lambda(repo, rep, uni):
+    """R19d: the function handed to re.sub (a nested def, or the __call__ of
+    a small private class) evaluates the replacement lambda for *every*
+    match: each normal exit is preceded by a call of the lambda.  A result
+    remembered from an earlier match is wrong as soon as the lambda reads
+    $.start / $.end / a group captured in a look-around."""
+    from sa import cfg as cfgmod
+    mod = repo.module(REGEX)
+    n = 0
+    for fi in mod.functions.values():
+        nested = fi.parent_func is not None
+        method = fi.cls is not None and fi.name == '__call__'
+        if not (nested or method):
+            continue
+        env = uni.env(fi)
+        g = cfgmod.CFG(fi.node)
+        evals = []
+        names = set()
+        for nd in g.nodes:
+            for c in cfgmod.node_calls(nd):
+                v = env.ev(c.func)
+                if any(t[0] == 'lazy' for t in v.tags):
+                    evals.append(nd)
+                    names.add(model.norm(c.func))
+        if not evals:
+            continue
+        n += 1
+        optional = any(isinstance(x, ast.Compare) and model.norm(
+            x.left) in names and isinstance(x.ops[0], (ast.Is, ast.IsNot))
+            for x in ast.walk(fi.node))
+        ok = optional or not g.reaches_exit_without(g.entry, evals)
+        rep.ob('R19d', fi.key + '/lambda-per-match', ok,
+               '%s can return a replacement without evaluating the lambda '
+               '`%s` for this match (a remembered result, or a shortcut): '
+               'replaceBy must evaluate it for every match, the lambda may '
+               'depend on the position and groups of the match' % (
+                   fi.qualname, sorted(names)[0]),
+               loc=mod.loc(fi.node))
+    rep.floor('regex callbacks that evaluate a lambda', n, 1)
+
+
+def check_python_rendering_of_values(repo, rep, uni):
+    """R19e: builtin str() / repr() / format() / %-formatting of a value of
+    the evaluation renders null, true and false the python way (None, True,
+    False).  Such a call is allowed only where the three are excluded: after
+    `is None` / `is True` / `is False` tests, under isinstance(x, str), or
+    on a parameter whose declared type admits neither."""
+    n = 0
+    mods = ('yaql.standard_library.strings', 'yaql.standard_library.regex')
+    for fi, role in uni.evaluation_time():
+        if fi.module.name not in mods:
+            continue
+        env = None
+        for c in model.calls_in(fi.node, shallow=True):
+            d = repo.resolve(fi.module, c.func, model.scope_locals(fi))
+            if d not in ('builtins.str', 'builtins.repr',
+                         'builtins.format') or not c.args or \
+                    not isinstance(c.args[0], ast.Name):
+                continue
+            x = c.args[0].id
+            env = env or uni.env(fi)
+            v = env.ev(c.args[0])
+            if not any(t[0] in ('param', 'derived', 'lazyres')
+                       for t in v.tags):
+                continue
+            n += 1
+            if _declared_without_bool_and_null(uni, fi, x):
+                rep.ob('R19e', '%s/%s(%s)' % (fi.key, d[9:], x), True,
+                       'declared type excludes null and booleans')
+                continue
+            lits = {(model.norm(e), p) for e, p in norm.literals(
+                c, fi.node)}
+            excl = all(('%s is %s' % (x, k), False) in lits or
+                       ('%s is not %s' % (x, k), True) in lits
+                       for k in ('None', 'True', 'False'))
+            is_str = any(p and e.startswith('isinstance(%s, ' % x) and
+                         e[len('isinstance(%s, ' % x):-1] in (
+                             'str', '(str,)') for e, p in lits)
+            rep.ob('R19e', '%s/%s(%s)' % (fi.key, d[9:], x),
+                   excl or is_str,
+                   '`%s` renders a value of the evaluation with python\'s '
+                   'own conversion where it can still be null / true / '
+                   'false (bool is an int for isinstance): the result '
+                   'reads None / True / False instead of null / true / '
+                   'false. Go through the yaql str() function' %
+                   model.norm(c), loc=fi.module.loc(c),
+                   construct=model.norm(c))
+    rep.floor('python renderings of evaluation values', n, 1)
+
+
+def _declared_without_bool_and_null(uni, fi, name):
+    for ov in uni.payload_ov.get(fi.key, ()):
+        for p in ov.params:
+            if p.name == name:
+                cls = (p.type.cls or '').rsplit('.', 1)[-1]
+                return cls in ('String', 'Integer', 'Number') and \
+                    not p.type.nullable
+    return False
+
+
 def run(repo, rep):
+    rep.rule('R19d', 'LAMBDA-PER-MATCH: a regex replacement callback '
+             'evaluates the replacement lambda on every path to a result')
+    rep.rule('R19e', 'NO-PYTHON-RENDERING-OF-VALUES: builtin str()/repr()/'
+             'format() is applied to a value of the evaluation only where '
+             'null, true and false are excluded')
     rep.rule('R19a', 'STDLIB-NAMES-RESOLVE: every attribute referenced on '
              'an imported foreign module exists in this interpreter')
     rep.rule('R19b', 'MATCH-API-KINDS: start()/end()/group()/span() take a '
@@ -488,4 +597,7 @@ def run(repo, rep):
     n = check_stdlib_names(repo, rep)
     check_match_api(repo, rep)
     check_siblings(repo, rep)
+    uni = unimod.Universe(repo)
+    check_callbacks_call_the_lambda(repo, rep, uni)
+    check_python_rendering_of_values(repo, rep, uni)
     rep.count(foreign_attribute_references=n)
